@@ -268,6 +268,18 @@ def work_bench(args):
             apy_a = (fa[-1] / fa[0]) ** (365 / dur) - 1
             apy_b = (fb[-1] / fb[0]) ** (365 / dur) - 1
             alpha = apy_a - beta * apy_b
+            # the same benchmark as a QUIET asset (its moves scaled down to 1e-5): beta is a ratio, a small variance is not a zero variance
+            fq = [1000.0 * (1 + 1e-5 * (v - fb[0])) for v in fb]
+            rq = [fq[i] / fq[i - 1] for i in range(1, n)]
+            var_q = ref_cov(rq, rq)
+            if var_q > 1e-13:
+                beta_q = ref_cov(ra, rq) / var_q
+                with np.errstate(all="ignore"):
+                    _, gq = calc.alpha_beta(sa, pd.Series(fq, index=idx), dur)
+                part.count("evaluations")
+                if not close(gq, beta_q, rel=1e-6, abs_=1e-6):
+                    part.violation("C20|alpha_beta|beta|quiet-benchmark", "beta against a low-variance benchmark != cov(r_p, r_b)/var(r_b)",
+                                   {"fn": "alpha_beta", "series": fa, "benchmark": fq}, {"got": gq, "expected": beta_q})
             sb = pd.Series(fb, index=idx)
             with np.errstate(all="ignore"):
                 ga, gb = calc.alpha_beta(sa, sb, dur)
